@@ -5,7 +5,8 @@ import treecommon
 
 def run(tier, seed):
     return treecommon.run_tree_property("C04", tier, seed, "Properties/C04.v", hooks_oracle=True,
-                                         extra_props=[("Properties/C04Load.v", "pins/C04Load.json")])
+                                         extra_props=[("Properties/C04Load.v", "pins/C04Load.json"),
+                                                      ("Properties/C05Load.v", "pins/C05Load.json")])
 
 
 def replay(path):
